@@ -786,6 +786,7 @@ end Asynkit.Gen
         "end Asynkit.Gen\n")
     files["Sched.lean"] = gen_sched(src)
     files.update(__import__("corostate2lean").generate(src))   # C20: coroutine state helpers
+    files.update(__import__("ctxresume2lean").generate(src))   # C04: which context a segment runs in
     top = body_no_doc(fn4)
     if len(top) != 1 or not isinstance(top[0], ast.If) or not isinstance(top[0].test, ast.Name):
         raise Unsupported("update_counters is no longer `if inserted: ... else: ...`")
